@@ -732,6 +732,16 @@ theorem inv_drain {H : Prop} {N : Nat} {F : Bool} (r fuel : Nat) : ∀ {s : Stat
     · exact ih (inv_drainRound fuel h)
     · exact inv_drainRound fuel h
 
+theorem inv_addAllSp {H : Prop} {N : Nat} {F : Bool} (k : Nat) (l : List Nat) :
+    ∀ {s : State}, Inv H N F s → Inv H N F (addAllSp s k l) := by
+  induction l with
+  | nil => intro s h; exact h
+  | cons x xs ih => intro s h; exact ih (inv_addSp k x h)
+
+theorem inv_mergeTmpInto {H : Prop} {N : Nat} {F : Bool} {s : State} (k : Nat) (h : Inv H N F s) :
+    Inv H N F (mergeTmpInto s k) :=
+  inv_freeTmp (inv_addAllSp k _ h)
+
 theorem inv_killGen {H : Prop} {N : Nat} {F : Bool} {s : State} (g : Nat) (h : Inv H N F s) : Inv H N F (killGen s g) := by
   unfold killGen
   split
@@ -780,6 +790,8 @@ theorem inv_step {H : Prop} {N : Nat} {F : Bool} (fuel : Nat) {s : State} (op : 
     · exact up h'
     · exact up (inv_resumeNormal fuel _ (inv_setSt _ _ (inv_popSp k h')))
   | sf k => exact up (inv_flushSp fuel k h')
+  | sm k k2 => simp only [step]; split; exact up h'; exact up (inv_mergeTmpInto k (inv_loadSp k2 h'))
+  | rm k i kd => simp only [step]; split; exact up (inv_mergeTmpInto k (inv_resolve i kd h')); exact up h'
   | gen g heap n =>
     simp only [step]
     split
